@@ -193,6 +193,21 @@ theorem C14_now_clock_error (r : Record) (errno : Int) (origin : String) (h err 
     CodeTieErrors.rust_now_eq inp h (.ok r) (.error (.sys errno origin)) h0 h1,
     ffiNowAnswers_of inp h err (.ok r) (.error (.sys errno origin)) h0 h1⟩
 
+/-- … and when the read of the monotonic clock fails (after a successful read of CLOCK_REALTIME) -/
+theorem C14_now_clock_error_mono (r : Record) (real : TimeSpec) (errno : Int) (origin : String) (h err : Value)
+    (nowNs : Int) (sizes : List (String × Nat)) (clk inp : Nat → Value)
+    (c0 : clk 0 = okTimespec real) (c1 : clk 1 = .enumv "Err" [shmErrorValue (.sys errno origin)])
+    (h0 : inp 0 = snapResValue (.ok r))
+    (hnow : nowRetOf (run (CodeTieNow.ctxP nowNs sizes clk) "ClockErrorBound::now" (recordValue r) []) = some (inp 1)) :
+    ∃ calls,
+      RustNowAnswers inp h calls (.error ⟨.syscall, errno, some origin⟩) ∧
+      FfiNowAnswers inp h err calls (.error ⟨.syscall, errno, some origin⟩) := by
+  rw [CodeTieNow.now_err_monotonic r real _ nowNs sizes clk c0 c1] at hnow
+  have h1 : inp 1 = boundResValue (.error (.sys errno origin)) := (Option.some.inj hnow).symm
+  exact ⟨nowCalls h (.ok r) (.error (.sys errno origin)),
+    CodeTieErrors.rust_now_eq inp h (.ok r) (.error (.sys errno origin)) h0 h1,
+    ffiNowAnswers_of inp h err (.ok r) (.error (.sys errno origin)) h0 h1⟩
+
 /-! ## C17: the C library behaves as the Rust client -/
 
 /-- an API answer as the harness observes it (`C17.NowAns`, `Model/OraclesH.lean`); an error of kind "none" does
